@@ -184,3 +184,93 @@ def tx_body(ds, sig, depth=2):
     finally:
         SIMPLE_VARIANTS[0] = False
     return ref, [to_txdbus(t, v) for t, v in zip(rc.split_sig(sig), ref)]
+
+
+# ---------------------------------------------------------------------------------------
+# interface descriptions (neutral form; txdbus objects and XML are derived from them)
+class IfaceDesc:
+    def __init__(self, name):
+        self.name = name
+        self.methods = []      # (name, sig_in, sig_out)
+        self.signals = []      # (name, sig)
+        self.props = []        # (name, sig, access, emits)
+
+    def method(self, name):
+        for m in self.methods:
+            if m[0] == name:
+                return m
+        return None
+
+    def __repr__(self):
+        return 'Iface(%s m=%r s=%r p=%r)' % (self.name, self.methods, self.signals, self.props)
+
+
+METHOD_NAMES = ['Get', 'Put', 'Frob', 'Echo', 'Sum', 'Ping', 'Quux']
+SIGNAL_NAMES = ['Changed', 'Tick', 'Alert']
+PROP_NAMES = ['Level', 'Name', 'Mode', 'Size']
+SIMPLE_SIGS = ['', 'i', 's', 'ii', 'as', 'u', 'b', 'd', '(is)', 'a{si}', 'v', 'ay', 'x', 'o', 'si', 't', 'n', 'q', 'y', 'g']
+PROP_SIGS = ['i', 's', 'u', 'b', 'd', 'y', 'n', 'q', 'x', 't', 'o', 'g', 'as', 'ai', '(is)', 'a{si}']
+
+
+def interface(ds, name, nmeth=None, rich=True, props=True):
+    d = IfaceDesc(name)
+    n = (1 + ds.choose(3)) if nmeth is None else nmeth
+    names = ds.shuffle(METHOD_NAMES)[:n]
+    for mn in sorted(names):
+        si = ds.pick(SIMPLE_SIGS) if rich else ds.pick(SIMPLE_SIGS[:6])
+        so = ds.pick(SIMPLE_SIGS) if rich else ds.pick(SIMPLE_SIGS[:6])
+        d.methods.append((mn, si, so))
+    for sn in SIGNAL_NAMES[:ds.choose(3)]:
+        d.signals.append((sn, ds.pick(SIMPLE_SIGS[:8])))
+    if props:
+        for pn in PROP_NAMES[:ds.choose(4)]:
+            d.props.append((pn, ds.pick(PROP_SIGS), ds.pick(['read', 'readwrite', 'write']),
+                            ds.pick(['true', 'false', 'invalidates'])))
+    return d
+
+
+def iface_xml(d):
+    """introspection XML for one interface, written from the DBus specification"""
+    out = ['  <interface name="%s">' % d.name]
+    for mn, si, so in d.methods:
+        out.append('    <method name="%s">' % mn)
+        for t in rc.split_sig(si):
+            out.append('      <arg type="%s" direction="in"/>' % t)
+        for t in rc.split_sig(so):
+            out.append('      <arg type="%s" direction="out"/>' % t)
+        out.append('    </method>')
+    for sn, ss in d.signals:
+        out.append('    <signal name="%s">' % sn)
+        for t in rc.split_sig(ss):
+            out.append('      <arg type="%s"/>' % t)
+        out.append('    </signal>')
+    for pn, ps, acc, em in d.props:
+        out.append('    <property name="%s" type="%s" access="%s">' % (pn, ps, acc))
+        out.append('      <annotation name="org.freedesktop.DBus.Property.EmitsChangedSignal" '
+                   'value="%s"/>' % em)
+        out.append('    </property>')
+    out.append('  </interface>')
+    return '\n'.join(out)
+
+
+def node_xml(path, descs, children=()):
+    head = ('<!DOCTYPE node PUBLIC "-//freedesktop//DTD D-BUS Object Introspection 1.0//EN"\n'
+            '"http://www.freedesktop.org/standards/dbus/1.0/introspect.dtd">\n')
+    body = ['<node name="%s">' % path] + [iface_xml(d) for d in descs] + \
+           ['  <node name="%s"/>' % c for c in children] + ['</node>']
+    return head + '\n'.join(body)
+
+
+def tx_interface(d, register=True):
+    """txdbus DBusInterface for a description (must be called inside the node context)"""
+    from txdbus import interface as ti
+    args = [ti.Method(mn, si, so) for mn, si, so in d.methods]
+    args += [ti.Signal(sn, ss) for sn, ss in d.signals]
+    for pn, ps, acc, em in d.props:
+        args.append(ti.Property(pn, ps, readable=acc in ('read', 'readwrite'),
+                                writeable=acc in ('write', 'readwrite'),
+                                emitsOnChange={'true': True, 'false': False,
+                                               'invalidates': 'invalidates'}[em]))
+    if register:
+        return ti.DBusInterface(d.name, *args)
+    return ti.DBusInterface(d.name, *args, noRegister=True)
